@@ -229,7 +229,7 @@ class Report(object):
         self.exhaustive = None
         self.rule = ''
         self.findings = load_findings()
-        self.replay_dir = os.path.join(VERIF, 'replay', prop)
+        self.replay_dir = os.path.join(os.environ.get('VERIF_REPLAY_DIR') or os.path.join(VERIF, 'replay'), prop)
         self._nreplay = 0
         self.max_report = 5
 
@@ -298,8 +298,9 @@ class Report(object):
             'wall_s': round(time.time() - self.t0, 2),
             'violations': self.violations,
         }
-        os.makedirs(os.path.join(VERIF, 'evidence'), exist_ok=True)
-        with open(os.path.join(VERIF, 'evidence', '%s.json' % self.prop), 'w') as f:
+        evdir = os.environ.get('VERIF_EVIDENCE_DIR') or os.path.join(VERIF, 'evidence')
+        os.makedirs(evdir, exist_ok=True)
+        with open(os.path.join(evdir, '%s.json' % self.prop), 'w') as f:
             json.dump(ev, f, indent=1, default=str)
         print('%s %s: states=%d transitions=%d impl_traces=%d evaluations=%d distinct=%d '
               'violations=%d known=%d wall=%.1fs' % (
